@@ -83,6 +83,8 @@ class Adapter:
             if got[0] != sc["start"] or got[1] - got[0] != sc.get("span_map", sc["span"]):
                 raise common.MachineryError(f"window placement not reproducible: {sc} -> {got}")
             subs.append(sb)
+            if (cfg["aw"] + len(cfg["subs"])) % 2:
+                common.poke_map(dec.bus.memory_map, k + cfg["aw"])     # queries while the decoder is being assembled
         # subordinates whose add() was refused are NOT subordinates of this decoder: whatever they do
         # (e.g. respond because another decoder selects them) must not reach this decoder's bus
         outsiders = []
